@@ -282,13 +282,14 @@ def state_fields(b):
 def _(c):
     def pre(b):
         from contracts.motion import mk_motion_state, mk_printer
-        p = mk_plugin(b, state=mk_motion_state(b))
+        p = mk_plugin(b, state=mk_motion_state(b, extended=b.gcode_table()))
         k = b.choose(3, "gcode")
         gcode = [None, "", b.string("gcode")][k]
         return {"self": p, "args": {"commInstance": b.comm(b.bool("streaming")), "phase": "queuing", "cmd": b.string("cmd"),
                                     "cmdType": None, "gcode": gcode, "subcode": None, "tags": None}, "ghost": {"P": mk_printer(b)}}
     c.pre(pre)
     c.requires("Inv", lambda f: hook_inv(f))
+    c.requires("deferred-table-domain", lambda f: True if (f.a.gcode is None or (isinstance(f.a.gcode, str) and not f.a.gcode)) else hook_deferred(f))
     c.modifies(lambda f: [(f.self.state, k) for k in f.self.state.fields] if truthy_active(f) else [])
     c.ensures("C11.inactive-is-transparent", lambda f: Implies(Not(f.old.self._activePrintJob),
                                                                And(f.result is None, untouched(f))), props=("C11",))
@@ -297,6 +298,11 @@ def _(c):
 
 def truthy_active(f):
     return True
+
+
+def hook_deferred(f):
+    from contracts.handlers import deferred_domain_of
+    return deferred_domain_of(f.self.state, f.a.cmd, f.a.gcode)
 
 
 def hook_inv(f):
